@@ -14,8 +14,12 @@ T == INSTANCE Totality WITH pc <- 1, verdict <- "", end <- ""
 Dev(i, d, what) == IF d \in KnownDevs THEN Report(i, "DEVIATION", d)
                    ELSE Report(i, "MISMATCH", what \o " (deviation " \o d \o ", not a listed known finding)")
 
+\* the formatting step (FmtPipe.tla): the sizes the model asks for must have been reached, or the run says nothing about them
 Judge(e, i) ==
-    IF T!Total([outcome |-> e.outcome, at |-> e.at]) THEN TRUE
+    IF e.kind = "fmtsize" /\ e.outcome = "ok" /\ e.out_bytes < e.want_bytes
+        THEN Report(i, "MISMATCH", "harness: the output is smaller than the size the plan of FmtPipe asks for")
+    ELSE IF e.kind = "fmtsize" /\ e.outcome = "err" THEN Report(i, "MISMATCH", "a module of plain type assignments fails with rustfmt in reach: " \o e.site)
+    ELSE IF T!Total([outcome |-> e.outcome, at |-> e.at]) THEN TRUE
     ELSE IF e.dev # "" THEN Dev(i, e.dev, "compilation or error rendering does not return")
     ELSE Report(i, "MISMATCH", e.outcome \o " during " \o e.at \o ": " \o e.site)
 
